@@ -685,7 +685,22 @@ class ExecMixin(object):
             s_out.assume(z3.Not(cond))
             if self.feasible(s_in):
                 snapshot = s_in.fork()
-                for b_st, flow in self.exec_block(body, s_in, ctx):
+                ctx.sinks.append([])
+                body_outs = list(self.exec_block(body, s_in, ctx))
+                body_raised = ctx.sinks.pop()
+                for r_st, exc in body_raised:
+                    for cls, clauses in getattr(spec, 'raise_steps', {}).items():
+                        if not self.is_subclass(exc.cls, cls):
+                            continue
+                        sctx = self.spec_ctx(ctx, old_state=snapshot, bound=ctx.bound)
+                        for i, clause in enumerate(clauses):
+                            try:
+                                g = self.spec_bool(clause, r_st, sctx)
+                            except Unsupported as ex:
+                                raise Unsupported('loop %d raise-step clause %r: %s' % (k, clause, ex))
+                            self.emit(ctx, r_st, 'step', 'loop%d.raise.%s.%d' % (k, cls, i), g, note=clause)
+                    ctx.raise_(r_st, exc)
+                for b_st, flow in body_outs:
                     if flow is not None and flow[0] == 'return':
                         yield b_st, flow
                         continue
@@ -693,6 +708,7 @@ class ExecMixin(object):
                         # frame of the partial iteration
                         for key, goal in self.frame_goal(snapshot, b_st, locs, limit=loop_limit):
                             self.emit(ctx, b_st, 'frame', 'loop%d.%s' % (k, E.key_name(key)), goal)
+                        b_st.marks['exit%d' % k] = b_st.fork()
                         yield b_st, None
                         continue
                     for a_st in after_body_fn(b_st):
@@ -701,6 +717,7 @@ class ExecMixin(object):
                         for key, goal in self.frame_goal(snapshot, a_st, locs, limit=loop_limit):
                             self.emit(ctx, a_st, 'frame', 'loop%d.%s' % (k, E.key_name(key)), goal)
             if self.feasible(s_out):
+                s_out.marks['exit%d' % k] = s_out.fork()
                 if orelse:
                     for r in self.exec_block(list(orelse), s_out, ctx):
                         yield r
@@ -821,7 +838,8 @@ class ExecMixin(object):
             extra = ['0 <= %s and %s <= %sn' % (iv, iv, iv)]
         elif kind == 'range':
             extra = ['%slo <= %s and (%s <= %shi or %s == %slo)' % (iv, iv, iv, iv, iv, iv)]
-        return Loop(invariants=extra + list(spec.invariants), modifies=spec.modifies, locals=spec.locals, steps=spec.steps)
+        return Loop(invariants=extra + list(spec.invariants), modifies=spec.modifies, locals=spec.locals, steps=spec.steps,
+                    raise_steps=getattr(spec, 'raise_steps', None))
 
     def iter_source(self, ctx, st, seq):
         if isinstance(seq.ty, Ref):
